@@ -475,7 +475,7 @@ class Judge:
         t21 = sc(g.tunnel_distance(la2, lo2, la1, lo1))
         t23 = sc(g.tunnel_distance(la2, lo2, la3, lo3))
         t13 = sc(g.tunnel_distance(la1, lo1, la3, lo3))
-        self.calls.append(("great_circle_distance", (la1, lo1, la2, lo2), d12))
+        self.calls.append(("great_circle_distance", (la1, lo1, la2, lo2), d12, (2 * gcd_tol(d12),)))
         self.calls.append(("tunnel_distance", (la1, lo1, la2, lo2), t12))
         name = f"({la1!r},{lo1!r}),({la2!r},{lo2!r})"
         if d12 != d21:
@@ -503,7 +503,7 @@ class Judge:
         r = c["r"]
         if r is not None:
             dr = sc(g.great_circle_distance(la1, lo1, la2, lo2, r=r))
-            self.calls.append(("great_circle_distance_r", (la1, lo1, la2, lo2, r), dr))
+            self.calls.append(("great_circle_distance_r", (la1, lo1, la2, lo2, r), dr, (2 * r * math.radians(gcd_tol(d12)),)))
             if not abs(dr - r * math.radians(d12)) <= 1e-12 * r * max(math.radians(d12), 1e-300) + 1e-300:
                 self.v(c, f"great_circle_distance(r={r!r}) = {dr!r} is not r times the angle {math.radians(d12)!r}")
             if not (0.0 <= dr <= math.pi * r * (1 + 1e-15)):
